@@ -206,6 +206,28 @@ fn c15_multisig_count_beyond_stack() -> bool {
     let b = matches!(no_panic_val(move || it2.run().is_err()), Some(true));
     a && b
 }
+// ---- C19 ----
+// an input whose unlocking ++ locking script cannot be re-parsed must simply not match; it must not panic
+fn c19_match_input_unparseable_script() -> bool {
+    let mut tx = Transaction::new(2, 0);
+    let unlocking = Script::from_script_bits(vec![ScriptBit::OpCode(OpCodes::OP_IF)]);
+    let mut txin = TxIn::new(&[0x11; 32], 0, &unlocking, None);
+    txin.set_locking_script(&Script::from_hex("51").unwrap());
+    txin.set_satoshis(1);
+    tx.add_input(&txin);
+    let tmpl = ScriptTemplate::from_asm_string("OP_1").unwrap();
+    let crit = MatchCriteria::new().set_script_template(&tmpl);
+    println!("finalised: {:?}", txin.get_finalised_script().map(|s| s.to_asm_string()).map_err(|e| e.to_string()));
+    matches!(no_panic_val(move || tx.match_input(&crit)), Some(None))
+}
+// ---- C17 (not claimed: string processing is outside the verifier; this probe only documents the observed defect) ----
+fn c17_one_byte_push_hex_collides_with_numeric_alias() -> bool {
+    let s = Script::from_bytes(&[0x01, 0x10]).unwrap();
+    let asm = s.to_asm_string();
+    let back = Script::from_asm_string(&asm).map(|x| x.to_bytes());
+    println!("asm={:?} reparsed bytes={:?}", asm, back.as_ref().map(|b| hex(b)).map_err(|e| e.to_string()));
+    back.map(|b| b == vec![0x01, 0x10]).unwrap_or(false)
+}
 fn run_script(hexs: &str) -> Result<Vec<String>, String> {
     let script = Script::from_hex(hexs).map_err(|e| e.to_string())?;
     let mut it = Interpreter::from_script(&script);
@@ -279,6 +301,8 @@ fn main() {
         "c14_notif" => c14_notif(),
         "c16_nip_empty" => c16_nip_empty(),
         "c16_div_zero" => c16_div_zero(),
+        "c19_match_input_unparseable_script" => c19_match_input_unparseable_script(),
+        "c17_one_byte_push_hex_collides_with_numeric_alias" => c17_one_byte_push_hex_collides_with_numeric_alias(),
         "c15_reversed_digest_rejected" => c15_reversed_digest_rejected(),
         "c15_codeseparator_offset_beyond_script" => c15_codeseparator_offset_beyond_script(),
         "c15_multisig_count_beyond_stack" => c15_multisig_count_beyond_stack(),
